@@ -142,3 +142,83 @@ CONTRACTS['navigation_wu#walk'] = Contract(
          "Or(And(pl_bin == INF, pl_wei == INF, pl_dis == INF), "
          "And(curr_paths[len(curr_paths) - 1] == target, pl_bin == len(curr_paths) - 1, pl_wei == pathsum(L, curr_paths), pl_dis == pathsum(D, curr_paths)))"),
     ])
+
+
+# ---- efficiency_bin (C03: "reports exactly the mean inverse of these distances"), global variant -------------------------------------
+# distance_inv is a function nested in efficiency_bin: the same matrix-powers loop as distance_bin, followed by the entrywise inverse.
+# It is proved on its own (same invariant as distance_bin) and used modularly in the contract of efficiency_bin(local=False).
+def _setup_di(eng, st):
+    n = z3.Int('n0c')
+    st.pc.append(n >= 1)
+    st.ghost['n0'] = n
+    st.env['g'] = alloc(st, 2, z3.Const('g0', A2R), (n, n), REAL)
+
+
+def _di_inv():
+    out = []
+    for name, src in DB_INV:
+        src = src.replace("arg('G')", "ARGG").replace('G', 'g').replace('ARGg', "arg('g')")
+        if name == 'G-is-binarised-input':
+            name, src = 'g-is-the-binary-argument', "forall(lambda x, y: implies(And(inr(x, n0), inr(y, n0)), And(g[x, y] == arg('g')[x, y], Or(g[x, y] == 0, g[x, y] == 1))))"
+        if name == 'shape':
+            src = 'And(n >= 1, len(g) == n0)'
+        out.append((name, src))
+    return out
+
+
+_DIGHOST = {k: v.replace('(G,', '(g,') for k, v in {
+    'n = 1': "assume(lemma_walks(G, n0))", 'body:while np.any(L)': "assume(lemma_walks(G, n0))",
+    'while np.any(L)': "assume(lemma_walks(G, n0, n)); "
+                       "check('exit-no-new-pair', forall(lambda x, y: implies(And(inr(x, n0), inr(y, n0)), not L[x, y]))); "
+                       "check('exit-no-open-pair-at-distance-n', forall(lambda x, y: implies(And(inr(x, n0), inr(y, n0), x != y, D[x, y] == 0), sdist(G, x, y) != n))); "
+                       "check('exit-no-open-pair-beyond-n', forall(lambda x, y: implies(And(inr(x, n0), inr(y, n0), x != y, D[x, y] == 0), sdist(G, x, y) <= n)))"}.items()}
+CONTRACTS['efficiency_bin.distance_inv'] = Contract(
+    'bct.algorithms.efficiency', 'efficiency_bin.distance_inv', ['g'], setup=_setup_di, dot_support=True, key='efficiency_bin.distance_inv',
+    requires=[('binary-input', "forall(lambda x, y: implies(And(inr(x, n0), inr(y, n0)), Or(g[x, y] == 0, g[x, y] == 1)))"), ('infinity-exceeds-any-hop-count', 'INF > n0')],
+    loops={'while np.any(L)': {'name': 'powers', 'inv': _di_inv()}},
+    ghost_after=_DIGHOST, ghost_before={'body:while np.any(L)': "assume(lemma_walks(g, n0))"},
+    ensures=[('inverse-of-the-shortest-path-length', "forall(lambda x, y: implies(And(inr(x, n0), inr(y, n0), x != y, sdist(g, x, y) >= 1), result()[x, y] == 1 / sdist(g, x, y)))"),
+             ('zero-when-there-is-no-path', "forall(lambda x, y: implies(And(inr(x, n0), inr(y, n0), x != y, sdist(g, x, y) == 0), result()[x, y] == 0))"),
+             ('diagonal-zero', "forall(lambda x: implies(inr(x, n0), result()[x, x] == 0))"),
+             ('argument-untouched', "unchanged('g')")])
+
+
+def _callee_distance_inv(eng, st, args, kw, node):
+    """contract of the nested function distance_inv (proved above as efficiency_bin.distance_inv): requires become obligations at the
+    call site, the result is a fresh matrix about which exactly the ensures are assumed."""
+    from engine.pyvc.core import to_z3, truth, sdist
+    ref = args[0]
+    o = st.heap[ref.oid]
+    G = eng.pure(o.term)
+    n = to_z3(o.shape[0], INT)
+    x, y = z3.Ints('x!di y!di')
+    inxy = z3.And(x >= 0, x < n, y >= 0, y < n)
+    g = lambda a, b: z3.Select(z3.Select(G, a), b)
+    eng.oblige(st, 'call[distance_inv]/requires/binary-input', z3.ForAll([x, y], z3.Implies(inxy, z3.Or(g(x, y) == 0, g(x, y) == 1))))
+    eng.oblige(st, 'call[distance_inv]/requires/infinity-exceeds-any-hop-count', z3.Real('INF') > z3.ToReal(n))
+    R = fresh('dinv', A2R)
+    r = lambda a, b: z3.Select(z3.Select(R, a), b)
+    sd = sdist(G, x, y)
+    st.pc.append(z3.ForAll([x, y], z3.Implies(z3.And(inxy, x != y), z3.And(z3.Implies(sd >= 1, r(x, y) == 1 / z3.ToReal(sd)), z3.Implies(sd == 0, r(x, y) == 0))), patterns=[r(x, y)]))
+    st.pc.append(z3.ForAll([x], z3.Implies(z3.And(x >= 0, x < n), r(x, x) == 0), patterns=[r(x, x)]))
+    return alloc(st, 2, R, o.shape, REAL)
+
+
+def _setup_eb(eng, st):
+    n = z3.Int('n0c')
+    st.pc.append(n >= 2)
+    st.ghost['n0'] = n
+    st.env['G'] = alloc(st, 2, z3.Const('G0', A2R), (n, n), REAL)
+    st.env['local'] = False
+
+
+CONTRACTS['efficiency_bin'] = Contract(
+    'bct.algorithms.efficiency', 'efficiency_bin', ['G', 'local'], setup=_setup_eb,
+    requires=[('infinity-exceeds-any-hop-count', 'INF > n0')],
+    ensures=[('global-efficiency-is-the-mean-inverse-shortest-path-length',
+              "And(result() == tsum(e, n0) / (n0 * n0 - n0), "
+              "forall(lambda x, y: implies(And(inr(x, n0), inr(y, n0)), G[x, y] == (1 if arg('G')[x, y] != 0 else 0))), "
+              "forall(lambda x, y: implies(And(inr(x, n0), inr(y, n0), x != y), And(implies(sdist(G, x, y) >= 1, e[x, y] == 1 / sdist(G, x, y)), implies(sdist(G, x, y) == 0, e[x, y] == 0)))), "
+              "forall(lambda x: implies(inr(x, n0), e[x, x] == 0)))"),
+             ('argument-untouched', "unchanged('G')")])
+CONTRACTS['efficiency_bin'].callees = {'distance_inv': _callee_distance_inv}
